@@ -286,8 +286,12 @@ func rin(typ resource.Type, id string, kind int) controller.Input {
 }
 
 func decls() []decl {
-	ex := func(t resource.Type) controller.Output { return controller.Output{Type: t, Kind: controller.OutputExclusive} }
-	sh := func(t resource.Type) controller.Output { return controller.Output{Type: t, Kind: controller.OutputShared} }
+	ex := func(t resource.Type) controller.Output {
+		return controller.Output{Type: t, Kind: controller.OutputExclusive}
+	}
+	sh := func(t resource.Type) controller.Output {
+		return controller.Output{Type: t, Kind: controller.OutputShared}
+	}
 	return []decl{
 		{name: "c1", inputs: []controller.Input{rin(t1, "", controller.InputWeak)}, outputs: []controller.Output{ex(o1)}},
 		{name: "c2", inputs: []controller.Input{rin(t1, "a", controller.InputStrong), rin(t1, "b", controller.InputWeak)}, outputs: []controller.Output{sh(o1)}},
@@ -623,10 +627,11 @@ func build(tier string) []explore.Scenario {
 
 func main() {
 	explore.Main(explore.Config{
-		Property:  "C17",
-		Technique: "explicit-state BFS over dependency-database operations vs a set model (white-box facade) + exhaustive enumeration of registration sequences on the real runtime, run to exact quiescence on the controlled scheduler",
-		Rule:      "BFS: every operation from every reachable model state; API: every sequence up to the length over 14 declarations x every start position; non-trivial = distinct states / sequences",
-		Assume:    []string{"API part runs the deterministic default schedule (registration is sequential by nature); concurrency of delivery is C05's subject"},
-		Extra:     map[string]any{"explanation": "states = distinct model states (BFS) + registration sequences run; transitions = database operations applied + scheduler steps of the runtime runs"},
+		Property:     "C17",
+		RequireShims: true,
+		Technique:    "explicit-state BFS over dependency-database operations vs a set model (white-box facade) + exhaustive enumeration of registration sequences on the real runtime, run to exact quiescence on the controlled scheduler",
+		Rule:         "BFS: every operation from every reachable model state; API: every sequence up to the length over 14 declarations x every start position; non-trivial = distinct states / sequences",
+		Assume:       []string{"API part runs the deterministic default schedule (registration is sequential by nature); concurrency of delivery is C05's subject"},
+		Extra:        map[string]any{"explanation": "states = distinct model states (BFS) + registration sequences run; transitions = database operations applied + scheduler steps of the runtime runs"},
 	}, build)
 }
